@@ -160,3 +160,63 @@ func ZvC04_S1_Traverse() {
 	vrt.Assert(vrt.LocksHeld() == 0, "C04/Traverse/lock-released")
 	vrt.Cover("C04/Traverse/done")
 }
+
+// ZvC04_S1_TwoSteps: TWO mutators in a row from an arbitrary search tree, then a full observation
+// through the public API (Traverse + Get of a probe). One inductive step cannot see state that an
+// operation leaves behind outside the abstract value — e.g. bookkeeping a later operation trusts —
+// so this runs every pair Upsert/Delete x Upsert/Delete with symbolic keys from every small shape.
+// (Size is left to the one-step harnesses, where the recorded counter drift is accounted for.)
+func ZvC04_S1_TwoSteps() {
+	kind := vrt.Choice(vrt.Pick(1, 2))
+	n := vrt.Choice(vrt.Pick(2, 3) + 1)
+	comp := zvComp(kind)
+	root := zvGen(n, nil, nil, comp)
+	var keys, vals []int
+	zvInorder(root, &keys, &vals)
+	b := &BsTree[int, int]{comp: comp, root: root, size: n}
+	m := make([]zvEnt, len(keys))
+	for i := range keys {
+		m[i] = zvEnt{keys[i], vals[i], true}
+	}
+	for s := 0; s < 2; s++ {
+		if vrt.Choice(2) == 0 {
+			k, v := vrt.Int(), vrt.Int()
+			vrt.Assert(!vrt.Try(func() { b.Upsert(k, v) }), "C04/TwoSteps/no-panic")
+			any := false
+			for i := range m {
+				hit := vrt.And(m[i].live, m[i].k == k)
+				any = vrt.Or(any, hit)
+				m[i].v = vrt.Ite(hit, v, m[i].v)
+			}
+			m = append(m, zvEnt{k, v, !any})
+		} else {
+			k := vrt.Int()
+			var err error
+			vrt.Assert(!vrt.Try(func() { err = b.Delete(k) }), "C04/TwoSteps/no-panic")
+			any := false
+			for i := range m {
+				hit := vrt.And(m[i].live, m[i].k == k)
+				any = vrt.Or(any, hit)
+				m[i].live = vrt.And(m[i].live, !hit)
+			}
+			vrt.Assert((err == nil) == any, "C04/TwoSteps/Delete-not-found-iff-absent")
+		}
+	}
+	var gk, gv []int
+	vrt.Assert(!vrt.Try(func() {
+		b.Traverse(func(it Item[int, int]) { gk = append(gk, it.Key); gv = append(gv, it.Val) })
+	}), "C04/TwoSteps/no-panic")
+	vrt.Assert(zvOrdered(gk, comp), "C04/TwoSteps/Traverse-in-comparator-order-without-repeats")
+	q := vrt.Int()
+	found, val := false, 0
+	for i := range m {
+		hit := vrt.And(m[i].live, m[i].k == q)
+		found = vrt.Or(found, hit)
+		val = vrt.Ite(hit, m[i].v, val)
+	}
+	tf, tv := zvLookup(gk, gv, q)
+	vrt.Assert(vrt.And(tf == found, vrt.Implies(found, tv == val)), "C04/TwoSteps/Traverse-yields-exactly-the-present-keys-with-current-values")
+	it, err := b.Get(q)
+	vrt.Assert(vrt.And((err == nil) == found, vrt.Implies(found, it.Val == val)), "C04/TwoSteps/Get-agrees")
+	vrt.Cover("C04/TwoSteps/end")
+}
